@@ -29,7 +29,7 @@ type ConcCase struct {
 func runConc(c ConcCase) string {
 	old := runtime.GOMAXPROCS(c.Procs)
 	defer runtime.GOMAXPROCS(old)
-	entries := []Entry{{"alice", "wonderland", 3, "tenant1"}, {"bob", "builder", 2, ""}, {"carol", "christmas", 3, "tenant2"}, {"dave", "davedave", 3, ""}, {"erin", "e", 2, ""}, {"frank", "frankly-a-rather-long-password-0123456789", 3, "mp"}}
+	entries := []Entry{{User: "alice", Password: "wonderland", Fields: 3, MountPoint: "tenant1"}, {User: "bob", Password: "builder", Fields: 2, MountPoint: ""}, {User: "carol", Password: "christmas", Fields: 3, MountPoint: "tenant2"}, {User: "dave", Password: "davedave", Fields: 3, MountPoint: ""}, {User: "erin", Password: "e", Fields: 2, MountPoint: ""}, {User: "frank", Password: "frankly-a-rather-long-password-0123456789", Fields: 3, MountPoint: "mp"}}
 	var h interface {
 		Authenticate(context.Context, auth.ApplicationContext, auth.TransportContext) (auth.Principal, error)
 	}
